@@ -370,6 +370,21 @@ func c15Reprs(a c15Alpha, idx []int) (names []string, builds []func() any) {
 		}
 		return arr.Interface()
 	})
+	if a.name == "maps" {
+		// the elements as YAML decoding produces them: interface-keyed maps
+		names = append(names, "elements-as-map[any]any")
+		builds = append(builds, func() any {
+			g := gen()
+			for i, x := range g {
+				m := map[any]any{}
+				for k, v := range x.(map[string]any) {
+					m[k] = v
+				}
+				g[i] = m
+			}
+			return g
+		})
+	}
 	if a.typed != nil {
 		names = append(names, "typed-slice")
 		builds = append(builds, func() any { return a.typed(gen()) })
